@@ -56,6 +56,30 @@ ELEM = [
     ("e_downcast_mut", ("element.rs", "downcast_mut"), "excl"),
 ]
 LAZY = ("lazy_clone", ("any_value/mod.rs", "lazy_clone"))
+# mutating methods of the typed view, called on `r`: through an `AnyVecRef` (a shared view, obtained from `&AnyVec` while
+# other shared borrows of the vector are alive) none of them may be callable; through an `AnyVecMut` all are
+MUTATORS = [
+    ("tm_push", ("any_vec_typed.rs", "push"), "r.push(String::new());"),
+    ("tm_insert", ("any_vec_typed.rs", "insert"), "r.insert(0, String::new());"),
+    ("tm_pop", ("any_vec_typed.rs", "pop"), "let _x = r.pop();"),
+    ("tm_remove", ("any_vec_typed.rs", "remove"), "let _x = r.remove(0);"),
+    ("tm_swap_remove", ("any_vec_typed.rs", "swap_remove"), "let _x = r.swap_remove(0);"),
+    ("tm_clear", ("any_vec_typed.rs", "clear"), "r.clear();"),
+    ("tm_drain", ("any_vec_typed.rs", "drain"), "let _x = r.drain(..);"),
+    ("tm_splice", ("any_vec_typed.rs", "splice"), "let _x = r.splice(0..1, vec![String::new()]);"),
+    ("tm_reserve", ("any_vec_typed.rs", "reserve"), "r.reserve(1);"),
+    ("tm_reserve_exact", ("any_vec_typed.rs", "reserve_exact"), "r.reserve_exact(1);"),
+    ("tm_shrink_to_fit", ("any_vec_typed.rs", "shrink_to_fit"), "r.shrink_to_fit();"),
+    ("tm_shrink_to", ("any_vec_typed.rs", "shrink_to"), "r.shrink_to(0);"),
+    ("tm_set_len", ("any_vec_typed.rs", "set_len"), "unsafe { r.set_len(0); }"),
+    ("tm_at_mut", ("any_vec_typed.rs", "at_mut"), "let _x = r.at_mut(0);"),
+    ("tm_get_mut", ("any_vec_typed.rs", "get_mut"), "let _x = r.get_mut(0);"),
+    ("tm_get_unchecked_mut", ("any_vec_typed.rs", "get_unchecked_mut"), "let _x = unsafe { r.get_unchecked_mut(0) };"),
+    ("tm_as_mut_ptr", ("any_vec_typed.rs", "as_mut_ptr"), "let _x = r.as_mut_ptr();"),
+    ("tm_as_mut_slice", ("any_vec_typed.rs", "as_mut_slice"), "let _x = r.as_mut_slice();"),
+    ("tm_iter_mut", ("any_vec_typed.rs", "iter_mut"), "let _x = r.iter_mut();"),
+    ("tm_spare_capacity_mut", ("any_vec_typed.rs", "spare_capacity_mut"), "let _x = r.spare_capacity_mut();"),
+]
 
 def scan_sigs(src_root):
     """(file, fn) -> {recv, ret, tie}; tie = 'owner' when the return type names the impl's lifetime 'a, else 'receiver'"""
@@ -93,6 +117,16 @@ def method_rows(sigs):
         rows.append({"name": name, "group": "elem", "kind": kind, "sig": s})
     s = look(LAZY[1], "shared")
     rows.append({"name": "lazy_clone", "group": "erased", "kind": "shared", "sig": s})
+    return rows
+
+def mutator_rows(sigs):
+    """the receiver each mutating typed method has in the source: the least exclusive one when there are several"""
+    rows = []
+    for name, key, call in MUTATORS:
+        c = sigs.get(key, [])
+        recv = None
+        if c: recv = "shared" if any(x["recv"] == "shared" for x in c) else ("value" if any(x["recv"] == "value" for x in c) else "excl")
+        rows.append({"name": name, "recv": recv, "call": call})
     return rows
 
 def programs():
@@ -149,7 +183,7 @@ def programs():
                fn(pre + ["let e = v.at(0);", "let r = e.downcast_ref::<String>().unwrap();", "drop(e);", "use_it(r);"])))
     return ps
 
-def gen_lean(rows):
+def gen_lean(rows, mrows=None):
     L = ["/- generated by py/static16.py from the method signatures in /repo/src on every run -/",
          "namespace AnyVec.Gen.Sig", "inductive Tie where | receiver | owner | none | missing", "  deriving Repr, DecidableEq",
          "inductive Recv where | shared | excl | value | missing", "  deriving Repr, DecidableEq",
@@ -162,7 +196,10 @@ def gen_lean(rows):
         items.append("  { name := %s, typed := %s, elem := %s, exclusive := %s, recv := .%s, tie := .%s }" % (
             S.lean_str(r["name"]), str(r["group"] == "typed").lower(), str(r["group"] == "elem").lower(),
             str(r["kind"] == "excl").lower(), recv, tie))
-    L.append(",\n".join(items)); L += ["]", "end AnyVec.Gen.Sig", ""]
+    L.append(",\n".join(items)); L += ["]"]
+    L += ["/-- mutating methods of the typed view with the receiver the source gives them -/", "def mutators : List (String × Recv) := ["]
+    L.append(",\n".join("  (%s, .%s)" % (S.lean_str(r["name"]), r["recv"] or "missing") for r in (mrows or [])))
+    L += ["]", "end AnyVec.Gen.Sig", ""]
     S.write_gen("Sig", "\n".join(L))
 
 def model_verdict(row, on_root):
@@ -180,7 +217,8 @@ def run(tier, seed, replay):
     fails = []
     sigs = scan_sigs(os.path.join(R.REPO, "src"))
     rows = method_rows(sigs)
-    gen_lean(rows)
+    mrows = mutator_rows(sigs)
+    gen_lean(rows, mrows)
     audit = R.lean_audit("C16")
     if audit["problems"] or audit["discharged"] != audit["obligations"] or audit["obligations"] == 0:
         fails.append(("theorem-audit", "Props/C16.lean no longer checks: %s no-failing-input-found" % "; ".join(audit["problems"])[:300], "\n".join(audit["problems"])))
@@ -224,14 +262,42 @@ def run(tier, seed, replay):
             disagreements += 1
             fails.append(("model:" + key, "model (signature table) says %s, rustc %s for %s no-failing-input-found" % (
                 "rejected" if mv else "accepted", "rejects" if rejected else "accepts", key), conflict))
+    # --- mutation through a shared typed view (AnyVecRef) while an element reference of the vector is alive
+    mprobes = []
+    for r in mrows:
+        conflict = HEAD + "pub fn probe() {\n    let v = mk();\n    let e = v.get(0).unwrap();\n    let r = v.downcast_ref::<String>().unwrap();\n    %s\n    use_it(e);\n}\n" % r["call"]
+        control = HEAD + "pub fn probe() {\n    let mut v = mk();\n    let mut r = v.downcast_mut::<String>().unwrap();\n    %s\n}\n" % r["call"]
+        mprobes.append(("c16_" + r["name"] + "_shared_conflict", conflict, {})); mprobes.append(("c16_" + r["name"] + "_shared_control", control, {}))
+    mres = S.run_probes(mprobes, rlib)
+    for r in mrows:
+        rc_, rk_ = mres["c16_" + r["name"] + "_shared_conflict"], mres["c16_" + r["name"] + "_shared_control"]
+        key = "typed:%s:mutate-through-shared-view" % r["name"]
+        conflict = [s for (n, s, _) in mprobes if n == "c16_" + r["name"] + "_shared_conflict"][0]
+        if r["recv"] is None:
+            fails.append(("sig:%s" % r["name"], "method %s not found in the source (renamed?) no-failing-input-found" % r["name"], "")); continue
+        if not rk_["ok"]:
+            fails.append(("control:" + key, "the conflict-free control program for %s is rejected by rustc (%s) no-failing-input-found" % (key, ",".join(rk_["codes"])),
+                          "/* rustc: " + rk_["stderr"][-800:] + " */")); continue
+        rejected = (not rc_["ok"]) and any(c in BORROWCK for c in rc_["codes"])
+        if not rc_["ok"] and not rejected:
+            fails.append(("probe:" + key, "conflict program for %s fails for a reason other than the borrow checker (%s) no-failing-input-found" % (key, ",".join(rc_["codes"])),
+                          conflict + "\n/* rustc: " + rc_["stderr"][-800:] + " */")); continue
+        if rejected: nrej += 1
+        else:
+            fails.append(("row:" + key, "rustc accepts a program that mutates the vector through a shared typed view (`AnyVecRef`) with `%s` while an element reference is alive" % r["name"][3:], conflict))
+        if (r["recv"] == "excl") != rejected:
+            disagreements += 1
+            fails.append(("model:" + key, "model (receiver table) says %s, rustc %s for %s no-failing-input-found" % (
+                "rejected" if r["recv"] == "excl" else "accepted", "rejects" if rejected else "accepts", key), conflict))
+    probes = probes + mprobes
     rc, nviol, hits = S.report("C16", fails, known)
     S.evidence("C16", tier, seed, audit, {"methods": len(rows), "programs": len(probes), "conflict_programs_rejected": nrej,
-               "model_vs_rustc_disagreements": disagreements, "known_findings_hit": hits,
+               "model_vs_rustc_disagreements": disagreements, "known_findings_hit": hits, "typed_mutators": [{"name": r["name"], "recv": r["recv"]} for r in mrows],
                "signature_table": [{"name": r["name"], "recv": (r["sig"] or {}).get("recv"), "tie": (r["sig"] or {}).get("tie"), "ret": (r["sig"] or {}).get("ret")} for r in rows]},
                time.time() - t0, nviol,
                "every handle-producing method (erased API, typed view, element level, lazy clone) x every conflict class (mutate / move / drop the "
                "source, read it under an exclusive handle, second exclusive handle, escape the source's scope, consume twice, mutate through the typed "
-               "view and reuse an earlier borrow, two mutable paths to one element), each paired with its conflict-free control; rustc's verdict and "
+               "view and reuse an earlier borrow, two mutable paths to one element), and every mutating method of the typed view called through a shared view (AnyVecRef) while an element reference is alive, each paired with its conflict-free control; rustc's verdict and "
                "error code per program; compared with the verdict the signature table predicts",
                [ps[0][4].split("\n")[-4:], ps[40][4].split("\n")[-6:]], len(probes), len(probes))
     print("C16 %s: %d methods, %d programs, %d conflicts rejected, %d model/rustc disagreements, %d theorems (%d discharged), %.1fs" % (
